@@ -205,6 +205,9 @@ pub fn explore_program_x<F: XFamily>(
         max_depth: s.max_depth,
         depth_cap_hits: s.depth_cap_hits,
         exec_cap_hit: capped,
+        // (fields added to the shared struct later, e.g. the C08 `after_stop` breach record, are
+        // not judged by this check)
+        ..Default::default()
     })
 }
 
